@@ -334,8 +334,38 @@ class SArr(real_np.ndarray):
     def nbytes(self):
         return self.size * self.dtype.itemsize
 
+    def _part(self, which):
+        """real / imaginary parts with numpy's dtype rule (complex64 -> float32, complex128 -> float64); a copy, not a view"""
+        dt = self.dtype.dt
+        if dt.kind != 'c':
+            if which == 'real':
+                return self
+            o = SArr(self.shape, self.dtype, fill=None)
+            real_np.ndarray.fill(o, cast_value(0, dt))
+            return o
+        o = SArr(self.shape, 'f4' if dt.itemsize == 8 else 'f8', fill=None)
+        src = real_np.ndarray.view(self, real_np.ndarray)
+        for idx in real_np.ndindex(*self.shape):
+            v = src[idx]
+            if v is UNINIT:
+                real_np.ndarray.__setitem__(o, idx, v)
+            else:
+                v = core.Cplx.of(v)
+                real_np.ndarray.__setitem__(o, idx, v.re if which == 'real' else v.im)
+        return o
+
+    @property
+    def real(self):
+        return self._part('real')
+
+    @property
+    def imag(self):
+        return self._part('imag')
+
     def astype(self, t, **k):
         t = as_caster(t)
+        if k.get('copy') is False and t.dt == self.dtype.dt:
+            return self          # numpy returns the array itself: later in-place operations alias the caller's data
         o = SArr(self.shape, t, fill=None)
         src = real_np.ndarray.view(self, real_np.ndarray)
         for idx in real_np.ndindex(*self.shape):
